@@ -162,6 +162,18 @@ func (s ElemSet) build() built {
 		}
 		m := modeling.NewMesh(modeling.PointTopology, idx).SetFloat3Attribute(modeling.PositionAttribute, latTable())
 		return built{scope(m), meshTree(m)}
+	case "points-permuted":
+		// as many vertices as elements, indexed in reverse: element k is vertex n-1-k (an index buffer of
+		// the vertex table's own length that is not the identity)
+		n := len(s.Elems)
+		tab := make([]V3, n)
+		idx := make([]int, n)
+		for i, e := range s.Elems {
+			tab[n-1-i] = latPoint(e[0])
+			idx[i] = n - 1 - i
+		}
+		m := modeling.NewMesh(modeling.PointTopology, idx).SetFloat3Attribute(modeling.PositionAttribute, tab)
+		return built{scope(m), meshTree(m)}
 	case "points-identity":
 		pts := make([]V3, len(s.Elems))
 		for i, e := range s.Elems {
@@ -867,6 +879,23 @@ func families(c *core.Ctx) []family {
 	fams = append(fams, family{"points", fmt.Sprintf("every multiset of 1..%d points of the lattice {0,1,2}^3", maxP), func(y func(ElemSet) bool) {
 		multisets(27, maxP, func(t []int) bool {
 			s := ElemSet{Kind: "points"}
+			for _, p := range t {
+				s.Elems = append(s.Elems, []int{p})
+			}
+			return y(s)
+		})
+	}})
+	fams = append(fams, family{"points-permuted", "every set of 2..3 distinct lattice points as a point mesh whose index buffer has the vertex table's length and reverses it", func(y func(ElemSet) bool) {
+		multisets(27, 3, func(t []int) bool {
+			if len(t) < 2 {
+				return true
+			}
+			for i := 1; i < len(t); i++ {
+				if t[i] == t[i-1] {
+					return true
+				}
+			}
+			s := ElemSet{Kind: "points-permuted"}
 			for _, p := range t {
 				s.Elems = append(s.Elems, []int{p})
 			}
